@@ -91,6 +91,24 @@ package agent
 //@ loop 2 invariant [frame] !held(a.mu) && a.started == old(a.started) && peercalls == old(peercalls) && lastUpdateOK && poolcalls == old(poolcalls) + 1
 //@                         && cnlen == old(cnlen) && trlen == old(trlen) && connectLogAppendOnly()
 
+// chanInv: once the agent's channels exist they stay open: the keep-alive loop is stopped by a value sent on stopCh
+// and reports its end by a value sent on waitCh, so that the same agent can be started, stopped and waited for again
+//@ pure chanInv(a *Agent) bool = fired(a.initOnce) ==> a.stopCh != nil && a.waitCh != nil && !closed(a.stopCh) && !closed(a.waitCh)
+
+// Stop: one stop signal per call, for the one loop; the channels survive for the next start
+//@ func (*Agent).Stop
+//@ property C20 C15
+//@ safety on
+//@ requires chanInv(a)
+//@ ensures [channels-stay-open] chanInv(a) && fired(a.initOnce)
+//@ sendreq * [signals-the-loop-on-its-stop-channel] : ch == a.stopCh
+
+//@ func (*Agent).Wait
+//@ property C20 C15
+//@ safety on
+//@ requires chanInv(a)
+//@ ensures [channels-stay-open] chanInv(a) && fired(a.initOnce)
+
 //@ func (*Agent).Start
 //@ property C20 C10 C15
 //@ safety on
@@ -99,12 +117,16 @@ package agent
 //@ ensures [one-loop]      err == nil ==> a.started && spawned() == 1 && !old(a.started)
 //@ ensures [clean-failure] err != nil && !old(a.started) ==> !a.started && spawned() == 0
 //@ ensures [registers]     err == nil ==> poolcalls >= old(poolcalls) + 1
+//@ requires chanInv(a)
+//@ ensures [channels-stay-open] chanInv(a)
 //@ ensures [unlocked]      !held(a.mu)
 
 //@ func (*Agent).serveUpdates
 //@ property C20 C10
 //@ requires !held(a.mu)
 //@ ensures [stopped-means-restartable] !a.started && !held(a.mu)
+//@ requires chanInv(a)
+//@ ensures [channels-stay-open] chanInv(a)
 //@ callreq Tick [interval] : arg0 == ite(a.UpdateInterval == 0, store.KeepaliveInterval, a.UpdateInterval)
 //@ callreq UpdatePeers [a-keep-alive-on-every-tick-of-the-configured-interval] : lastrecv() == lastTick && lastTick != 0
 //@        && lastTickEvery == ite(a.UpdateInterval == 0, store.KeepaliveInterval, a.UpdateInterval)
